@@ -268,6 +268,18 @@ func evalCase(c *Case) (res Result) {
 		return evalPath(c)
 	case "inv":
 		return evalInv(c)
+	case "refonly":
+		code, err := compile(c.Q[0])
+		if err != nil {
+			return harnessErr(c, err)
+		}
+		in, err := decode(c.Input)
+		if err != nil {
+			return harnessErr(c, err)
+		}
+		runAll(code, in)
+		res.OK = true
+		return res
 	}
 	res.What = "harness"
 	res.Detail = "unknown case kind " + c.Kind
